@@ -4,7 +4,7 @@
     random / select oracles constrained by [env_ok]).  Quantifiers: every configuration, every
     handler script, every environment. *)
 From WM Require Import Base.Prelude Handler.Retry Handler.RetryMonitor Handler.RetryArith Handler.RetryProofs
-  Handler.RetryTrunc Handler.RetryConfig.
+  Handler.RetryTrunc Handler.RetryConfig Handler.RetrySystem Handler.RetrySystemProofs.
 From Coq Require Import QArith Qminmax.
 Open Scope Z_scope.
 
@@ -204,6 +204,32 @@ Theorem C12_model_accepted : forall c sk h e,
   retry_monitor c sk h (obs_of e (retry c h e)) = true.
 Proof. exact retry_accepted. Qed.
 
+(** N messages concurrently through ONE wrapped handler (Handler/RetrySystem.v: interleaving of
+    per-message steps — first invocation, loop iteration — on a shared clock, any schedule):
+    after any schedule the state of message i is what it reaches alone on the instants of its own
+    steps, whatever the other messages do *)
+Theorem C12_interleaving_independent : forall c hs es sched st i,
+  g_msgs (srun false c hs es st sched) i = mrun c (hs i) (es i) (g_msgs st i) (times_of i sched).
+Proof. exact srun_independent. Qed.
+
+(** ... hence N concurrent messages = N independent runs of [retry]: a message that has returned
+    did what [retry] does for its own script and oracle values (instants from the shared clock),
+    so every theorem above holds per message in the concurrent system *)
+Theorem C12_concurrent_messages_are_independent_runs : forall c hs es sched i r,
+  g_msgs (srun false c hs es sinit sched) i = MDone r ->
+  exists t0 e', In (i, t0) sched /\ e_t0 e' = t0 /\ same_but_times e' (es i) /\ r = retry c (hs i) e'.
+Proof. exact system_runs_are_retry_runs. Qed.
+
+(** the variant with ONE ExponentialBackOff value for all messages ("Reset() before every use",
+    [shared = true]) violates this: a failing second message resets the first one's schedule *)
+Theorem C12_shared_backoff_independence_refuted :
+  exists c hs es sched i r r',
+    g_msgs (srun true c hs es sinit sched) i = MDone r
+    /\ mrun c (hs i) (es i) MInit (times_of i sched) = MDone r'
+    /\ hooks (r_trace r) = [(1, 5); (2, 5); (3, 10)]
+    /\ hooks (r_trace r') = [(1, 5); (2, 10); (3, 20)].
+Proof. exact shared_backoff_not_independent. Qed.
+
 Print Assumptions C12_first_success_wins.
 Print Assumptions C12_attempt_bound.
 Print Assumptions C12_attempt_bound_nonpositive.
@@ -229,6 +255,9 @@ Print Assumptions C12_early_exit_only_on_ctx.
 Print Assumptions C12_gives_up_when_context_ends.
 Print Assumptions C12_max_elapsed_gives_up_partial.
 Print Assumptions C12_model_accepted.
+Print Assumptions C12_interleaving_independent.
+Print Assumptions C12_concurrent_messages_are_independent_runs.
+Print Assumptions C12_shared_backoff_independence_refuted.
 
 (** non-vacuity: MaxRetries 3, 5 ms doubling capped at 15 ms, no randomisation; the handler
     fails three times and then returns message 31 *)
